@@ -1,18 +1,19 @@
 #!/bin/bash
-# evaluate the round-3 deliveries of one property: r3.sh Cxx [extra checks]
+# evaluate the deliveries of one property in round $ROUND (default 3): r3.sh Cxx [extra checks]
+R=${ROUND:-3}
 c=$1; shift
 for i in 1 2 3; do
-  [ -f /tmp/seeds/$c-out3/patch$i.diff ] || continue
-  ROUND=3 ./seed_eval.py $c $i "$@" > /var/tmp/r3-$c-$i.log 2>&1
+  [ -f /tmp/seeds/$c-out$R/patch$i.diff ] || continue
+  ROUND=$R ./seed_eval.py $c $i "$@" > /var/tmp/r3-$c-$i.log 2>&1
   python3 - "$c" "$i" <<'PY'
 import json,sys,re
 c,i=sys.argv[1],sys.argv[2]
 t=open(f'/var/tmp/r3-{c}-{i}.log').read()
 try:
     j=json.loads(t[t.index('{'):t.rindex('}')+1])
-    print(f"{c}-r3-{i} confirmed={j.get('confirmed')} caught_by={j.get('caught_by')} :: {j.get('title','')[:110]}")
+    print(f"{c}-{i} confirmed={j.get('confirmed')} caught_by={j.get('caught_by')} :: {j.get('title','')[:110]}")
 except Exception as e:
     print(c,i,"PARSE",t[-400:])
 PY
 done
-[ -f /tmp/seeds/$c-out3/neutral.diff ] && ./neutral_eval.py $c "$@"
+[ -f /tmp/seeds/$c-out$R/neutral.diff ] && ROUND=$R ./neutral_eval.py $c "$@"
